@@ -68,7 +68,7 @@ def scenarios(tier, rng):
             s.file(b"/in.conf", b"k0=no\n\nk1\n\nk2=3\n\nk3\n[S]\nk4=0\n\nk5\n\nk0=1\n")
             s.add("RF", 0, h(b"/in.conf"), h(b"="), h(b"#"))
         for j in range(6):
-            g = rng.choice([None, b"S"])
+            g = rng.choice([None, b"S", b"Sx", b"S"])     # two section names of which one begins with the other
             k = b"k%d" % rng.randrange(6)
             if rng.random() < 0.7:
                 s.add("SET", 0, "str", h(g), h(k), h(rng.choice(PRIOR)))
